@@ -36,7 +36,7 @@ T = {
  "C03": (True, "E2", "exhaustive enumeration of sample values x offset/gain alphabets (complete for 8/16-bit formats) and of frame widths 1..32 x 14 formats x every Frame method on the real code, against the reference arithmetic and per-channel sample application",
          "Identity laws over every value of the <=24-bit formats (thorough: <=32-bit), general add/mul laws over every 8/16-bit value x all offsets/gains of the alphabets (lattice above), bare-sample-as-frame laws; 448 frame instantiations x 9 contents x every Frame method with closure call order observed; release and overflow-checked builds.",
          "Values above 16/24 bits are covered on lattices; offsets/gains come from finite alphabets. Trusted: rustc/LLVM, hardware f32/f64 multiply, the reference conversions (C01/C02 references).", "DESIGN.md §4 C03"),
- "C04": (True, "E2", "bounded-exhaustive enumeration of adaptor programs (all trees to depth 2, all unary stacks to depth 3/4, thorough: all depth-3 trees over a small alphabet; 7 frame families incl. [i32;2], [i64;1] and the bare sample i32 whose values do not fit the float companion's mantissa; scale probes with sources of 300 frames and delays up to usize::MAX) executed on the real adaptor structs against an AST interpreter with independent integer / float arithmetic and instrumented sources",
+ "C04": (True, "E2", "bounded-exhaustive enumeration of adaptor programs (all trees to depth 2, all unary stacks to depth 3/4, thorough: all depth-3 trees over a small alphabet; 9 frame families incl. [i32;2], [i64;1] and the bare sample i32 whose values do not fit the float companion's mantissa, and two magnitude families (float lattice scaled by 2^-200 and by 2^20); scale probes with sources of 300 frames and delays up to usize::MAX) executed on the real adaptor structs against an AST interpreter with independent integer / float arithmetic and instrumented sources",
          "Every program of the bounded space is built from the real dasp_signal adaptors and run for source length + delays + 3 calls; frames are compared with the pointwise interpreter, every instrumented source must have been pulled exactly once per call (never under a delay's leading silence), inspect must see exactly what passes, and programs over a borrowed source must leave it at the right frame after every prefix length.",
          "Depth and source length are bounded (depth 2 trees, stacks of 3/4, sources of <=3 frames); right operands of add_amp/mul_amp are unary stacks. Trusted: rustc/LLVM, the reference arithmetic of common::refmodel (unit-tested; the same one C01-C03 use), the forwarding wrapper.", "DESIGN.md §4 C04"),
  "C05": (True, "E2", "the same bounded-exhaustive program enumeration, with an exhaustion algebra in the interpreter (exhausted-after-T-calls per node) and exact-count oracles for until_exhausted, lift, take and interleaved output",
@@ -54,16 +54,16 @@ T = {
  "C08": (True, "E2", "exhaustive enumeration of ratio histories (every per-frame ratio sequence over 4-letter alphabets to length 5/6, 21 constant ratios x every constructor, every setter switch point) x source lengths x interpolators x frame formats on the real Converter with an instrumented source, against exact rational positions",
          "For every configuration of the finite space the converter is run to exhaustion + 3: source pulls must equal floor(P_n) with P_n an exact rational (i128 x 2^-100), floor output = frame at the pulled index, linear output = exact blend within 4 ulp / 1 LSB and inside the two frames' interval, ratio 1 exact, is_exhausted() before every output, output counts for constant ratios; non-positive scale panics; labelled long runs for non-dyadic ratios.",
          "Ratios come from finite alphabets (dyadic ones are checked exactly, others with a float tolerance of n*2^-50); sources of <=8 frames. Trusted: rustc/LLVM, IEEE division for mirrored ratio arithmetic.", "DESIGN.md §4 C08"),
- "C16": (True, "E2", "exhaustive enumeration of node configurations (input count x buffers per input x output buffers x wrapper type x consecutive calls) on the real stock nodes inside real graphs, against per-node reference functions on position-coded dyadic buffers",
+ "C16": (True, "E2", "exhaustive enumeration of node configurations (input count x buffers per input x output buffers x wrapper type x consecutive calls) on the real stock nodes inside real graphs, against per-node reference functions on position-coded dyadic buffers, plus every assignment of buffer content classes (tiny, subnormal, huge, signed zeros, infinities, NaN payloads) to the inputs of each stock node",
          "Sum/SumBuffers/Pass over every combination of 0..3 inputs with 0..3 buffers each and 0..3 output buffers under 9 wrapper types (plain, BoxedNode, BoxedNodeSend, Box, &mut, fn pointer, dyn Fn, dyn FnMut, nested GraphNode), 3 calls; Delay over ring lengths {1,2,63,64,65,130} per channel with mismatched channel counts, 4 calls; boxed signal node with 0..3 output buffers, 64 pulls per call.",
          "Counts bounded by 3; Pass with several inputs is not checked (the property speaks of a single input). Trusted: rustc/LLVM, petgraph's incoming-neighbour order for wiring the nested-graph comparison.", "DESIGN.md §4 C16"),
- "C17": (True, "E2", "exhaustive enumeration of step alphabets, of every per-frame frequency sequence over 4-letter alphabets to length 5/6, and of seed / phase grids on the real oscillators and noise sources, against exact dyadic phase arithmetic and closed-form waveforms",
+ "C17": (True, "E2", "exhaustive enumeration of step alphabets, of every per-frame frequency sequence over 4-letter alphabets to length 5/6, and of seed / phase grids on the real oscillators and noise sources, against exact dyadic phase arithmetic and closed-form waveforms (sine within the rounding of its argument plus 3 ulp)",
          "Phase law exact for 10 dyadic steps x 3 rates, tolerant for 8 non-dyadic pairs over 10^6 (thorough 10^7) frames; sine/saw/square compared exactly with closed forms at the lock-step phase; one frequency frame consumed per output for every sequence; noise purity (clone, restart, seed shift) and range over 9 boundary seeds x 2^20 frames and a dense seed grid; simplex range/purity over every multiple of 2^-8 in [0,65536).",
          "Frequencies, rates and seeds come from finite alphabets; seeds whose counter would overflow 2^64 are excluded. Trusted: rustc/LLVM, libm sin.", "DESIGN.md §4 C17"),
  "C18": (True, "E2", "exhaustive enumeration of (depth, priming level, fractional position, input history over a 5-letter alphabet) on the real Sinc interpolator; linearity decided by superposition of impulse responses measured on the same code",
          "Depths 1..8 (thorough 1..16, 32, 50), three frame formats: ratio-1 transparency through the Converter for every source over the alphabet up to length 4/5 plus impulse/step/ramp; linearity and scaling at 8/16 positions and every priming level for every history to length 3/5; finiteness; constant reproduction within 1% at 256 positions; reset followed by every continuation of length 3 equals a fresh interpolator.",
          "Finite grids of depth, position and amplitude. Trusted: rustc/LLVM; libm sin/cos are inside both sides of the linearity comparison.", "DESIGN.md §4 C18"),
- "C19": (True, "E2", "exhaustive sweeps of the rectifiers over every value of the <=24-bit formats (thorough <=32-bit and every f32) and exhaustive enumeration of follower histories (inputs and setter calls) to depth 4/5 over 17 detector families x 36 time-constant pairs on the real Detector",
+ "C19": (True, "E2", "exhaustive sweeps of the rectifiers over every value of the <=24-bit formats (thorough <=32-bit and every f32) and exhaustive enumeration of follower histories (inputs and setter calls) to depth 4/5 over 20 detector families x 64 time-constant pairs, plus a sweep of ~7200 time constants (every whole number of frames to 4096, quarter steps, audio-typical times), on the real Detector",
          "Rectifier functions and structs on bare samples and frames against |amplitude| / clamp references; follower: every history over next(5 letters)/set_attack(3)/set_release(3), each output checked against the one-pole formula evaluated from the observed previous output and the detected value, betweenness, zero-time exactness, monotone convergence on constant input, detect_envelope adaptor (and setters) equivalence, every Detector convenience constructor == Detector::new.",
          "Follower inputs and time constants come from finite alphabets; integer alphabets exclude the format minimum. Trusted: rustc/LLVM, f64 exp for the gain, the real detect component as source of the detected value.", "DESIGN.md §4 C19"),
  "C07": (True, "E2", "bounded-exhaustive audit: every transition of the enumerated drivers (all depth<=2 adaptor programs, every ring-buffer raw state, component pipelines, every digraph on <=4 nodes with stock nodes) is executed on the real code between two samples of a counting global allocator",
@@ -107,7 +107,7 @@ def main():
         ],
         "checks": checks,
         "not_applicable": na,
-        "notes": "All checks are bounded-exhaustive explorations of the real dasp code (no sampling); ./check is the driver (child process, wall/address-space caps, crash/hang/panic replay). Every check except C07 runs in a release build and again with debug assertions and overflow checks on (dbg parts, quick bounds); C15 in all four combinations; C11 also in the no_std build. known_findings.txt lists fixed defects and the two recorded findings (C07 graph.regrow-on-different-graph, C18 sinc.int-partial-sum-overflow); seeded/ holds 130 property-breaking changes (all detected by the quick check of their property), benign/ 40 behaviour-preserving ones (all quiet).",
+        "notes": "All checks are bounded-exhaustive explorations of the real dasp code (no sampling); ./check is the driver (child process, wall/address-space caps, crash/hang/panic replay). Every check except C07 runs in a release build and again with debug assertions and overflow checks on (dbg parts, quick bounds); C15 in all four combinations; C11 also in the no_std build. known_findings.txt lists fixed defects and the two recorded findings (C07 graph.regrow-on-different-graph, C18 sinc.int-partial-sum-overflow); seeded/ holds 141 property-breaking changes (all detected by the quick check of their property), benign/ 50 behaviour-preserving ones (all quiet).",
     }
     with open(os.path.join(ROOT, "MANIFEST.json"), "w") as f:
         json.dump(man, f, indent=1)
